@@ -33,6 +33,10 @@ class SimHang(BaseException):
     """Deterministic step budget exceeded inside one request."""
 
 
+class _WallClockExceeded(BaseException):
+    """Raised by the SIGALRM watchdog inside a request; converted to HarnessError outside the application."""
+
+
 class HarnessError(Exception):
     """The simulator itself is wrong (never reported as a property violation)."""
 
@@ -299,12 +303,17 @@ class World:
         import signal
 
         def _too_slow(signum, frame):
-            raise HarnessError(f"request exceeded {self.request_wall_s}s of wall time: "
-                               f"{environ.get('REQUEST_METHOD')} {environ.get('PATH_INFO')}?{environ.get('QUERY_STRING')}")
+            # not an Exception: the application must not be able to turn the watchdog into a 500 response, which a
+            # check would then report as a violation of its property although only wall-clock time ran out
+            raise _WallClockExceeded()
         old = signal.signal(signal.SIGALRM, _too_slow)
         signal.setitimer(signal.ITIMER_REAL, self.request_wall_s)
         try:
             return self._call_inner(environ, run_wsgi_app)
+        except _WallClockExceeded:
+            raise HarnessError(f"request exceeded {self.request_wall_s}s of wall time: "
+                               f"{environ.get('REQUEST_METHOD')} {environ.get('PATH_INFO')}?"
+                               f"{environ.get('QUERY_STRING')}") from None
         finally:
             signal.setitimer(signal.ITIMER_REAL, 0)
             signal.signal(signal.SIGALRM, old)
